@@ -3296,6 +3296,25 @@ LEFT JOIN conversions ON {join_condition}{group_by}{order_clause}{limit_clause}
             # Need to rewrite filters to use pre-agg column names
             rewritten_filters = []
             for f in filters:
+                # Rewrite column references only (never string literals): drop the model / CTE
+                # qualifier and map the time dimension to the rollup's time column
+                try:
+                    parsed_f = sqlglot.parse_one(f, dialect=self.dialect)
+                    for col in parsed_f.find_all(exp.Column):
+                        if col.table in (model.name, f"{model.name}_cte"):
+                            col.set("table", None)
+                        if (
+                            not col.table
+                            and preagg.time_dimension
+                            and preagg.granularity
+                            and col.name == preagg.time_dimension
+                        ):
+                            col.set("this", exp.to_identifier(f"{preagg.time_dimension}_{preagg.granularity}"))
+                    rewritten_filters.append(parsed_f.sql(dialect=self.dialect))
+                    continue
+                except Exception:
+                    pass
+
                 # Replace model_cte. with nothing (pre-agg table doesn't use CTEs)
                 # Also replace model. with nothing
                 rewritten_f = f.replace(f"{model.name}_cte.", "").replace(f"{model.name}.", "")
